@@ -386,6 +386,15 @@ def random_structure(rng, max_atoms=300, family=None, allow_degenerate=True, all
         a.set_cell(a.get_cell().array @ R.T)
         a.set_positions(a.get_positions() @ R.T)
         meta["cell_mode"] = "rotated"
+    # cyclic permutation of the Cartesian axes (a proper rotation by 120 degrees about (1,1,1)): slabs and layers whose
+    # normal points along x or y instead of z - axis-dependent bookkeeping (bins, extents, guards) sees every role
+    meta["axes"] = "xyz"
+    if rng.random() < 0.3:
+        k = int(rng.integers(1, 3))
+        perm = [(i + k) % 3 for i in range(3)]
+        a.set_cell(a.get_cell().array[:, perm])
+        a.set_positions(a.get_positions()[:, perm])
+        meta["axes"] = "".join("xyz"[i] for i in perm)
     # unimodular basis change (same lattice when fully periodic; a different but valid structure otherwise)
     if rng.random() < 0.2:
         M = cells.random_unimodular(rng, steps=2, maxmult=1)
